@@ -12,7 +12,9 @@ Clause of the property text                     theorem(s)
   outlets sum to inlets                         mixAndSplit_balance, adjust_balance, partition_balance,
                                                 lle_balance (efficiency_conserves), vle_balance, phaseSplit_balance
   no negative flows unless infeasibility        mixAndSplit_nonneg, adjust_nonneg, partition_nonneg, lle_nonneg, vle_nonneg
-  partition reproduces K                        partition_K, partition_K_ratio, partition_K_exact, achievedK_common_factor
+  partition reproduces K                        partition_K, partition_K_ratio, partition_K_exact, achievedK_common_factor;
+                                                phase fraction: rr_root_sums, partition_phase_fraction_consistent,
+                                                rrShortcut_one / _zero (early exits of the N-component solver)
   forced chemicals, shortcuts                   partition_forced_top/_bottom, partition_unlisted_top, partition_phi_zero/_one
   moisture adjustment reaches the target        moisture_reached, adjust_infeasible_iff
   phase split sends each phase to its outlet    phaseSplit_rows, phaseSplit_error_iff
@@ -1108,5 +1110,181 @@ theorem partitionAliased_bottom_counterexample :
                             phi := 1/2, strict := false } .bottom = .ok o ∧ o.top.at 0 + o.bottom.at 0 ≠ 20 := by
   refine ⟨{ phi := 1/2, top := [0, 0, 0], bottom := [40/3, 20/3, 0], clipped := false, warned := false }, ?_, by decide +kernel⟩
   unfold partitionAliased partition PartIn.run; decide +kernel
+
+/-! ## phase-fraction consistency (the value the solver returns) -/
+
+/-- termwise identities behind the Rachford–Rice objective: with `d_i = 1 + φ (K_i − 1)`,
+`Σ −z_i (K_i − 1)/d_i = Σ z_i/d_i − Σ z_i K_i/d_i` and `φ Σ z_i K_i/d_i + (1 − φ) Σ z_i/d_i = Σ z_i` -/
+theorem rr_terms (phi : Rat) : ∀ (zs ks : List Rat), zs.length = ks.length → (∀ k ∈ ks, 1 + phi * (k - 1) ≠ 0) →
+    sumL (List.zipWith (fun z k => -(z * (k - 1)) / (1 + phi * (k - 1))) zs ks) =
+        sumL (List.zipWith (fun z k => z / (1 + phi * (k - 1))) zs ks) -
+        sumL (List.zipWith (fun z k => z * k / (1 + phi * (k - 1))) zs ks) ∧
+    phi * sumL (List.zipWith (fun z k => z * k / (1 + phi * (k - 1))) zs ks) +
+        (1 - phi) * sumL (List.zipWith (fun z k => z / (1 + phi * (k - 1))) zs ks) = sumL zs
+  | [], [], _, _ => by simp
+  | [], _ :: _, h, _ => by simp at h
+  | _ :: _, [], h, _ => by simp at h
+  | z :: zt, k :: kt, h, hd => by
+    obtain ⟨ih1, ih2⟩ := rr_terms phi zt kt (by simpa using h) (fun k' hk' => hd k' (by simp [hk']))
+    have hd0 : 1 + phi * (k - 1) ≠ 0 := hd k (by simp)
+    simp only [List.zipWith_cons_cons, sumL_cons]
+    have e1 : -(z * (k - 1)) / (1 + phi * (k - 1)) = z / (1 + phi * (k - 1)) - z * k / (1 + phi * (k - 1)) := by
+      field_simp; ring
+    have e2 : phi * (z * k / (1 + phi * (k - 1))) + (1 - phi) * (z / (1 + phi * (k - 1))) = z := by
+      field_simp; ring
+    constructor
+    · rw [e1, ih1]; ring
+    · linarith
+
+/-- **a root of the code's objective is a consistent phase fraction** — if `phase_fraction_objective_function`
+vanishes at `φ ∈ (0,1)` for normalised fractions (`Σ z + za + zb = 1`), then the bottom-phase fractions
+`x_i = z_i/(1 + φ(K_i − 1))` together with the forced-bottom share sum to 1, and so do the top-phase fractions
+`K_i x_i` with the forced-top share: both phases are properly normalised. -/
+theorem rr_root_sums (zs ks : List Rat) (hl : zs.length = ks.length) (za zb phi : Rat) (h0 : 0 < phi) (h1 : phi < 1)
+    (hza : 0 ≤ za) (hzb : 0 ≤ zb) (hd : ∀ k ∈ ks, 1 + phi * (k - 1) ≠ 0) (hsum : sumL zs + za + zb = 1)
+    (hroot : rrObjective zs ks za zb phi = 0) :
+    sumL (List.zipWith (fun z k => z / (1 + phi * (k - 1))) zs ks) + zb / (1 - phi) = 1 ∧
+    sumL (List.zipWith (fun z k => z * k / (1 + phi * (k - 1))) zs ks) + za / phi = 1 := by
+  obtain ⟨t1, t2⟩ := rr_terms phi zs ks hl hd
+  have ha : (if za > 0 then za / phi else 0) = za / phi := by
+    by_cases h : za > 0
+    · simp [h]
+    · have : za = 0 := le_antisymm (le_of_not_gt h) hza
+      simp [this]
+  have hb : (if zb > 0 then zb / (1 - phi) else 0) = zb / (1 - phi) := by
+    by_cases h : zb > 0
+    · simp [h]
+    · have : zb = 0 := le_antisymm (le_of_not_gt h) hzb
+      simp [this]
+  unfold rrObjective at hroot
+  rw [ha, hb, t1] at hroot
+  have hp : phi ≠ 0 := ne_of_gt h0
+  have hq : (1 - phi) ≠ 0 := by linarith
+  have ea : phi * (za / phi) = za := by field_simp
+  have eb : (1 - phi) * (zb / (1 - phi)) = zb := by field_simp
+  set X := sumL (List.zipWith (fun z k => z / (1 + phi * (k - 1))) zs ks)
+  set Y := sumL (List.zipWith (fun z k => z * k / (1 + phi * (k - 1))) zs ks)
+  set a := za / phi
+  set b := zb / (1 - phi)
+  have hX : X + b = 1 := by
+    have h3 : phi * (X - Y - a + b) = 0 := by rw [hroot]; ring
+    nlinarith [t2, h3, hsum, ea, eb]
+  exact ⟨hX, by linarith⟩
+
+/-- the un-clipped two-phase bottom flow of an equilibrium chemical -/
+theorem partition_bottom_cell (p : PartIn) (o : PartOut) (stale : Nat → Rat) (h : p.run stale = .ok o)
+    (h0 : 0 < p.phi) (h1 : p.phi < 1) (hclip : p.anyClip = false) (hnd : p.ids.Nodup)
+    (i : Nat) (k : Rat) (hi : i < p.n) (hmem : (i, k) ∈ p.ids.zip p.K) (hk : 0 < k) :
+    o.bottom.at i = p.feed.at i * (1 - p.phi) / (p.phi * k + (1 - p.phi)) := by
+  have e := partition_K p o stale h h0 h1 hclip hnd i k hi hmem hk
+  have hbal := partition_balance p _ o h i hi
+  have hden : 0 < p.phi * k + (1 - p.phi) := by nlinarith
+  rw [eq_div_iff (ne_of_gt hden)]
+  have ht : o.top.at i = p.feed.at i - o.bottom.at i := by linarith
+  rw [ht] at e
+  nlinarith [e]
+
+theorem bottoms_sum (phi F : Rat) (hF : F ≠ 0) (f feed : Nat → Rat) : ∀ (ids : List Nat) (K : List Rat),
+    ids.length = K.length → (∀ k ∈ K, phi * k + (1 - phi) ≠ 0) →
+    (∀ ik ∈ ids.zip K, f ik.1 = feed ik.1 * (1 - phi) / (phi * ik.2 + (1 - phi))) →
+    sumL (ids.map f) = (1 - phi) * F *
+      sumL (List.zipWith (fun z k => z / (1 + phi * (k - 1))) (ids.map (fun i => feed i / F)) K)
+  | [], [], _, _, _ => by simp
+  | [], _ :: _, h, _, _ => by simp at h
+  | _ :: _, [], h, _, _ => by simp at h
+  | i :: it, k :: kt, h, hd, hf => by
+    have ih := bottoms_sum phi F hF f feed it kt (by simpa using h) (fun k' hk' => hd k' (by simp [hk']))
+      (fun ik hik => hf ik (by simp [hik]))
+    have h0 := hf (i, k) (by simp)
+    have hd0 := hd k (by simp)
+    have hd1 : 1 + phi * (k - 1) ≠ 0 := by
+      have : 1 + phi * (k - 1) = phi * k + (1 - phi) := by ring
+      rw [this]; exact hd0
+    simp only [List.map_cons, List.zipWith_cons_cons, sumL_cons]
+    rw [ih, h0]
+    have : phi * k + (1 - phi) = 1 + phi * (k - 1) := by ring
+    rw [this]
+    field_simp
+
+/-- **phase-fraction consistency** — two phases, nothing clipped, `K > 0`: if the value the solver returned is a
+root of the code's own objective (`phase_fraction_objective_function` with the forced fractions), then the outlet
+totals over the partitioned material are exactly `(1 − φ)·F` at the bottom and `φ·F` at the top.  With
+`partition_K_exact` this gives `y_i / x_i = K_i` exactly (the "common factor" is 1). -/
+theorem partition_phase_fraction_consistent (p : PartIn) (o : PartOut) (stale : Nat → Rat) (h : p.run stale = .ok o)
+    (h0 : 0 < p.phi) (h1 : p.phi < 1) (hclip : p.anyClip = false) (hnd : p.ids.Nodup)
+    (hlen : p.ids.length = p.K.length) (hK : ∀ k ∈ p.K, 0 < k) (hn : ∀ i ∈ p.ids, i < p.n)
+    (hF : 0 < p.F) (hFa : 0 ≤ p.Fa) (hFb : 0 ≤ p.Fb)
+    (hroot : rrObjective (p.ids.map (fun i => p.feed.at i / p.F)) p.K (p.Fa / p.F) (p.Fb / p.F) p.phi = 0) :
+    sumOver p.ids o.bottom.at + p.Fb = (1 - p.phi) * p.F ∧ sumOver p.ids o.top.at + p.Fa = p.phi * p.F := by
+  have hF0 : p.F ≠ 0 := ne_of_gt hF
+  have hdpos : ∀ k ∈ p.K, 0 < p.phi * k + (1 - p.phi) := fun k hk => by
+    have := hK k hk
+    nlinarith
+  have hd : ∀ k ∈ p.K, 1 + p.phi * (k - 1) ≠ 0 := fun k hk => by
+    have : 1 + p.phi * (k - 1) = p.phi * k + (1 - p.phi) := by ring
+    rw [this]; exact ne_of_gt (hdpos k hk)
+  have hsumz : sumL (p.ids.map (fun i => p.feed.at i / p.F)) = sumOver p.ids p.feed.at / p.F := by
+    have : (fun i => p.feed.at i / p.F) = (fun i => p.feed.at i * (1 / p.F)) := by
+      funext i; rw [mul_one_div]
+    rw [this, sumL_map_mul_right, mul_one_div]
+    rfl
+  have hsum : sumL (p.ids.map (fun i => p.feed.at i / p.F)) + p.Fa / p.F + p.Fb / p.F = 1 := by
+    rw [hsumz]
+    have hFdef : p.F = sumOver p.ids p.feed.at + (p.Fa + p.Fb) := rfl
+    field_simp
+    linarith
+  obtain ⟨hX, _⟩ := rr_root_sums _ p.K (by simp [hlen]) (p.Fa / p.F) (p.Fb / p.F) p.phi h0 h1
+    (div_nonneg hFa (le_of_lt hF)) (div_nonneg hFb (le_of_lt hF)) hd hsum hroot
+  have hbs := bottoms_sum p.phi p.F hF0 o.bottom.at p.feed.at p.ids p.K hlen
+    (fun k hk => ne_of_gt (hdpos k hk))
+    (fun ik hik => partition_bottom_cell p o stale h h0 h1 hclip hnd ik.1 ik.2 (hn ik.1 (List.of_mem_zip hik).1) hik
+      (hK ik.2 (List.of_mem_zip hik).2))
+  have h1m : (1 - p.phi) ≠ 0 := by linarith
+  have hbot : sumOver p.ids o.bottom.at + p.Fb = (1 - p.phi) * p.F := by
+    unfold sumOver
+    rw [hbs]
+    have : sumL (List.zipWith (fun z k => z / (1 + p.phi * (k - 1))) (p.ids.map (fun i => p.feed.at i / p.F)) p.K)
+        = 1 - p.Fb / p.F / (1 - p.phi) := by linarith
+    rw [this]
+    field_simp
+    ring
+  refine ⟨hbot, ?_⟩
+  have htop : sumOver p.ids o.top.at = sumOver p.ids p.feed.at - sumOver p.ids o.bottom.at := by
+    unfold sumOver
+    rw [← sumL_map_sub]
+    congr 1
+    apply List.map_congr_left
+    intro i hi
+    have := partition_balance p _ o h i (hn i hi)
+    linarith
+  have hFdef : p.F = sumOver p.ids p.feed.at + (p.Fa + p.Fb) := rfl
+  rw [htop]
+  linarith
+
+/-- the single-phase early exits of `solve_phase_fraction_Rashford_Rice` fire only when nothing is forced into the
+phase that would be empty: "everything to the top" (`1`) needs `zb = 0`, "everything to the bottom" (`0`) needs `za = 0` -/
+theorem rrShortcut_one (ks : List Rat) (za zb : Rat) (h : rrShortcut ks za zb = some 1) : zb = 0 := by
+  unfold rrShortcut at h
+  split at h
+  · simp at h
+  · split at h
+    · rename_i hc
+      simp only [Bool.and_eq_true, beq_iff_eq] at hc
+      exact hc.2
+    · simp at h
+
+theorem rrShortcut_zero (ks : List Rat) (za zb : Rat) (h : rrShortcut ks za zb = some 0) : za = 0 := by
+  unfold rrShortcut at h
+  split at h
+  · rename_i hc
+    simp only [Bool.and_eq_true, beq_iff_eq] at hc
+    exact hc.2
+  · split at h
+    · simp at h
+    · simp at h
+
+/-- non-vacuity of the root hypothesis: `φ = 1/2` is a root for `z = (1/2, 1/2)`, `K = (1/2, 2)` -/
+example : rrObjective [1/2, 1/2] [1/2, 2] 0 0 (1/2) = 0 := by decide +kernel
+example : rrSolve [1/4, 1/4] [2, 3] 0 (1/2) 0 (9999999999999999/10000000000000000) (2/5) = 2/5 := by decide +kernel
 
 end ThermoVerif.Props.C20
